@@ -2,5 +2,5 @@ SPECIFICATION Spec
 CONSTANTS MaxEdit = 2  MaxInv = 3  MaxKill = 1  MaxFail = 1  GenDepth = 0
 CONSTANT Weak = {"PruneBeforeReset"}
 VIEW view
-INVARIANT CexPrint
+CONSTRAINT CexPrint
 CHECK_DEADLOCK FALSE
